@@ -556,7 +556,7 @@ def run(ctx):
             ctx.exec_case(case, run_case)
     except Failure:
         return
-    ctx.run_given(cases(), run_case, ctx.n(quick=1250, thorough=20000))
+    ctx.run_given(cases(), run_case, ctx.n(quick=1250, thorough=12000))
 
 
 def replay(case, ctx):
@@ -566,7 +566,9 @@ def replay(case, ctx):
 def extra_coverage(cov):
     counters = cov.get("counters", {})
     full = counters.get("enum_full_ordered_triples", 0)
-    exhaustive = bool(full == ENUM_FULL and not cov.get("skipped_over_budget"))
+    # the enumeration runs before the random half and a skipped (over-budget) case is not counted, so the
+    # count alone says whether the sub-domain was covered completely
+    exhaustive = bool(full == ENUM_FULL)
     return {
         "exhaustive": exhaustive,
         "exhaustive_subdomain": SUBDOMAIN,
